@@ -287,7 +287,9 @@ package state
 //@   ensures err == nil ==> SharesConsistentWithOld()
 
 //@ func MutableState.AddRewardSingleAttenuated
-//@   props C05 C10
+//@   props C05 C10 C15
+//@   precall SharePool\)\.Deposit$ :: defined(q) && q != nil && (QV(q) == 0 || GMoveOK > old(GMoveOK))
+//@   note (C15) the commission is deposited - its shares minted - only AFTER the non-commission part of the reward was moved into the pool (the counted successful quantity.Move): the commission shares are priced at the pool's value INCLUDING that reward, so the entity's commission does not also earn a part of the reward it was carved out of, and the other delegators get their pro-rata part (seed C15_j deposited the commission first: 136 redeemable for a commission of 100)
 //@   precall quantity\.Move$ :: QV(argAs[*quantity.Quantity](1)) >= QV(argAs[*quantity.Quantity](2))
 //@   precall SharePool\)\.Deposit$ :: QV(argAs[*quantity.Quantity](1)) >= QV(argAs[*quantity.Quantity](2))
 //@   requires s != nil && ctx != nil && factor != nil && QV(factor) >= 0
